@@ -6,6 +6,7 @@ import (
 	"database/sql"
 	"fmt"
 	"os"
+	"path/filepath"
 	"strings"
 	"sync"
 	"syscall"
@@ -239,6 +240,17 @@ func retryOracle(c *RetryCase) (firstFailed bool, err error) {
 	dir := fix.CaseDir()
 	defer os.RemoveAll(dir)
 	path := fix.TempPath(dir, "retry") + ".updog"
+	// somebody else's complete index, written in its own directory before
+	// anything can have gone wrong, and copied to the path later
+	fdir := filepath.Join(dir, "foreign")
+	os.MkdirAll(fdir, 0o755)
+	if _, err := fix.BuildAt(filepath.Join(fdir, "x.updog"), []model.Row{{"somebody": "else"}, {"somebody": "else", "x": "y"}}, fix.WMemFile); err != nil {
+		return false, fmt.Errorf("INFRA: %v", err)
+	}
+	foreign, err := os.ReadFile(filepath.Join(fdir, "x.updog"))
+	if err != nil {
+		return false, fmt.Errorf("INFRA: %v", err)
+	}
 	rows := c.Data.Rows()
 	w := updog.NewIndexWriter(path)
 	for _, r := range rows {
@@ -268,7 +280,7 @@ func retryOracle(c *RetryCase) (firstFailed bool, err error) {
 	switch c.Between {
 	case 1:
 		os.Remove(path)
-		if _, err := fix.BuildAt(path, []model.Row{{"somebody": "else"}, {"somebody": "else", "x": "y"}}, fix.WMemFile); err != nil {
+		if err := os.WriteFile(path, foreign, 0o644); err != nil {
 			return firstFailed, fmt.Errorf("INFRA: %v", err)
 		}
 	case 2:
